@@ -211,3 +211,48 @@ PROPS["C13"] = Prop(
     trusted_base=VERUS_TRUST,
     not_covered=["object spread in literals (eval_expr Object arm)", "validate_args", "patterns in for-target / parameter position reach bind_next through bind::bind (verified) from eval_stmts (verified); that the grammar builds the same AST for them is not under contract"],
 )
+
+
+# ---------------------------------------------------------------------------------------------
+# Lexer / scanner leaf contracts (Engine K)
+# ---------------------------------------------------------------------------------------------
+import props_lexer
+
+GENERATORS = list(props_lexer.GENERATORS)
+
+PROPS["C18"] = Prop(
+    "C18", "proof",
+    "Scanner position bookkeeping as a ONE-STEP function contract (Kani, full-domain state (line, col) and chars): after next_char the "
+    "position is (line+1, 0) for a newline and (line, col+1) for every other char (tab, CR, multi-byte count one); base case Scanner::new. "
+    "Lemma L-pos (Verus) lifts the step contract by induction to the closed form for input of any length. Operator / name / keyword "
+    "errors carry the stored position of their node (clauses of the K and V units of C06/C16/C20/C07).",
+    kunits=props_lexer.UNITS["C18"],
+    assumptions=["token start capture in next_token and the `col -= 1` end adjustment are under contract only for the rejected-character case",
+                 "`@L` positions attached by the generated parser are not under contract"],
+    trusted_base=COMMON_TRUST,
+    not_covered=["token spans (start/end) for words, ints and strings", "positions produced by the LALRPOP grammar", "call / stack-trace positions"],
+)
+
+PROPS["C09"] = Prop(
+    "C09", "proof",
+    "Continuation rule as a contract over ALL 50 token constructors (one generated Kani harness each): with that token as the previous "
+    "token, a newline or `;` is suppressed iff the token is one of the 25 documented continuation tokens (or a terminator / file start). "
+    "skip_whitespace_and_comments: stops exactly at newline / EOF / a non-whitespace char, `#` runs to end of line exclusive (bounded: 3 arbitrary chars).",
+    kunits=props_lexer.UNITS["C09"],
+    assumptions=["`_` digit separators, `\\xHH` equivalence and 'same message at the moved position' are not under contract (string/int lexing is outside Kani's reach)"],
+    trusted_base=COMMON_TRUST,
+    not_covered=["whole-program layout invariance", "the grammar's Stmt/Block terminator rules"],
+    ktimeout=400,
+)
+
+PROPS["C03"] = Prop(
+    "C03", "proof",
+    "Symbol recognisers: match_single/double/triple_symbol_token equal the documented tables for every char / pair / triple; "
+    "next_symbol_token returns the longest documented symbol for every text of 1..3 arbitrary chars (incl. EOF after 1 or 2), consumes exactly it, "
+    "and returns None (-> `unexpected`) exactly when no prefix is a token, never indexing outside the input; a lone non-token char is rejected at (1,1).",
+    kunits=props_lexer.UNITS["C03"],
+    assumptions=["the LALRPOP-generated parser, main's parse-before-eval ordering and stderr format are not under contract",
+                 "next_int / next_str_literal / next_keyword_or_ident over arbitrary text are outside Kani's reach (measured)"],
+    trusted_base=COMMON_TRUST,
+    not_covered=["parser", "process-level behaviour (exit status, stdout empty)", "word / int / string recognisers"],
+)
